@@ -42,6 +42,12 @@ with the rate sampled at ONE point of the step" (any point: left end, right end,
 
 The bound depends only on (lam, tau_c, T, M, w, dt, L), never on the code under test.  It is
 first order in dt (D) -- halving dt must roughly halve the error.
+
+Not bounded a priori: the package obtains gdot(t_k) by integrating a cubic spline through the
+SAMPLES of C(t) instead of C itself.  For end-point sampling the sharp version of the step bound
+is  int_step (u - t_{k-1}) |C(u)| du  ~ D/2, so the bound above leaves a factor ~2 for that
+quadrature deviation (measured: the error of the unchanged package is 0.46-0.52 of the bound for
+every admissible grid point, i.e. the spline deviation is far below the first-order term).
 """
 import math
 
@@ -56,10 +62,15 @@ UNIT_RTOL = 1.0e-6
 
 def exponentials(lam_cm, tau, T, M=10):
     """C(t) = sum_j a_j exp(-r_j t): returns (a, r) as complex / real arrays.
-    lam_cm in 1/cm, tau in fs, T in K, M = number of Matsubara terms."""
+    lam_cm in 1/cm, tau in fs, T in K, M = number of Matsubara terms, or M = "ht" for the
+    high-temperature form C(t) = lam (2kT - i gam) e^{-gam t}."""
     lam = float(lam_cm) * CM2INT
     gam = 1.0 / float(tau)
     kT = KB_INT * float(T)
+    if M == "ht":
+        # ftype "OverdampedBrownian-HighTemperature": cot(x) -> 1/x, no Matsubara terms
+        return (numpy.array([lam * (2.0 * kT - 1.0j * gam)], dtype=complex),
+                numpy.array([gam], dtype=float))
     a = [lam * gam * (1.0 / math.tan(gam / (2.0 * kT)) - 1.0j)]
     r = [gam]
     for n in range(1, int(M) + 1):
@@ -131,18 +142,3 @@ def first_order_bound(t, dt, w_cm, baths, L=4):
     eps[0] = 0.0
     E = numpy.cumsum(eps)
     return numpy.expm1(D + E), D, E
-
-
-def spline_quadrature_allowance(t, dt, baths):
-    """The package integrates a cubic spline through the SAMPLES of C instead of C itself.
-    For an interpolating cubic spline |s - f| <= c h^4 max|f''''| with c = 5/384 for the
-    complete spline; the not-a-knot end conditions used by FITPACK change the constant, not
-    the order -- c = 1/8 is used here (10x the complete-spline constant).  The resulting
-    deviation of the rate integral is <= c h^4 F4 t, and of the exponent <= c h^4 F4 t^2/2,
-    F4 = sum_j |a_j| r_j^4 >= max |C''''|."""
-    t = numpy.asarray(t, dtype=float)
-    F4 = 0.0
-    for b in baths:
-        a, r = exponentials(*b)
-        F4 += float(numpy.sum(numpy.abs(a) * r ** 4))
-    return 0.125 * float(dt) ** 4 * F4 * t * t / 2.0
